@@ -402,6 +402,33 @@ def run(ctx: Ctx) -> int:
         construct="spec keeps all keys",
     )
 
+    # keys that validation never sees: get_sorted_keys drops metadata keys, decided by is_meta_key - which has to
+    # test the LEAF COMPONENT of the key (a foreign key merely ending in "__path__" is not metadata)
+    from .shared_rules import key_expr_role, key_helper_roles
+
+    imk = ctx.func("_namespace:is_meta_key")
+    kparam = imk.args.args[0].arg
+    mems = [n_ for n_ in ast.walk(imk) if isinstance(n_, ast.Compare) and len(n_.ops) == 1 and isinstance(n_.ops[0], ast.In) and isinstance(n_.comparators[0], ast.Name) and n_.comparators[0].id == "meta_keys"]
+    ok = len(mems) == 1
+    role = None
+    if ok:
+        left = mems[0].left
+        if isinstance(left, ast.Name):
+            ds = [s for s in walk_local(imk) if isinstance(s, ast.Assign) and any(isinstance(t, ast.Name) and t.id == left.id for t in s.targets)]
+            left = ds[0].value if len(ds) == 1 else left
+        role = key_expr_role(key_helper_roles(ctx.repo), left)
+        ok = role is not None and role[0] == "leaf" and role[1] == kparam
+    others = [c for c in calls_in(imk) if call_leaf(c) in ("endswith", "startswith", "find", "count") or (isinstance(c.func, ast.Attribute) and c.func.attr in ("endswith",))]
+    ok = ok and not others
+    ctx.oblige(
+        "C06.a",
+        ok,
+        mems[0] if mems else imk,
+        "is_meta_key tests the leaf component of the key against meta_keys" if ok else "is_meta_key no longer tests exactly the leaf component: a foreign key whose text merely ends in a metadata name (`ckpt__path__`) is filtered out of the keys validation looks at and accepted silently",
+        fn=imk,
+        construct="meta key by leaf component",
+    )
+
     # ---------------- C06.f ---------------------------------------------------
     # dotted-key prefix tests of the two permitted skips: `a.startswith(b)` with a computed b decides "a is nested under b" only when b ends
     # with the separator; without it `model.lay` passes for `model.layers`, `optim` for `optimizer.lr`
